@@ -29,6 +29,8 @@ CONSTANTS MaxF,       \* initial file length 0..MaxF
           MaxPhases,
           Chunk,      \* cells per pread / pwrite
           WithStop,   \* TRUE: dispatch_io_close(DISPATCH_IO_STOP) may hit the last phase while it is in flight
+          WithRebase, \* "no" | "may" | "must" (emission: every later phase uses a derived channel): between phases the client may move the file position and derive a new channel
+                      \* (dispatch_io_create_with_io(DISPATCH_IO_RANDOM, old)): its offsets count from the new position
           Emit,       \* TRUE: print one vector per finished behaviour (used with -simulate)
           Mut         \* "none" | "nobase" (ignore f_ptr) | "rr_shared_total" | "stop_after_io" (spec mutants, must be refuted)
 
@@ -78,10 +80,18 @@ Init ==
 
 Submit(os) ==
   /\ ops = <<>> /\ phase < MaxPhases /\ NonConflicting(file, os) /\ ~stopped
+  /\ (WithRebase = "must" /\ phase > 0 => base # hist[Len(hist)][6])
   /\ ops' = os /\ phase' = phase + 1 /\ file0' = file
   /\ prog' = [i \in DOMAIN os |-> 0] /\ got' = [i \in DOMAIN os |-> <<>>] /\ fin' = [i \in DOMAIN os |-> FALSE]
   /\ err' = [i \in DOMAIN os |-> 0]
   /\ UNCHANGED <<file, base, hist, stopped>>
+
+(* lseek(fd, b) ; dispatch_io_create_with_io(DISPATCH_IO_RANDOM, channel, ...): f_ptr of the new channel is the
+   position at ITS creation; the operations of later phases go to the new channel *)
+Rechannel(b) ==
+  /\ WithRebase # "no" /\ ops = <<>> /\ phase > 0 /\ phase < MaxPhases /\ ~stopped /\ b # base
+  /\ base' = b
+  /\ UNCHANGED <<file, phase, ops, prog, got, fin, file0, hist, stopped, err>>
 
 (* dispatch_io_close(channel, DISPATCH_IO_STOP) while the batch is in flight: every operation that has not
    finished completes with ECANCELED at its next turn, keeping what it has transferred so far *)
@@ -122,7 +132,7 @@ AllDone == ops # <<>> /\ \A i \in DOMAIN ops : fin[i]
 
 EndPhase ==
   /\ AllDone
-  /\ hist' = Append(hist, <<[i \in DOMAIN ops |-> <<IF ops[i].k = "r" THEN 0 ELSE 1, ops[i].off, ops[i].len>>], [i \in DOMAIN ops |-> ReadResult(file0, ops[i])], file0, file, IF stopped THEN 1 ELSE 0>>)
+  /\ hist' = Append(hist, <<[i \in DOMAIN ops |-> <<IF ops[i].k = "r" THEN 0 ELSE 1, ops[i].off, ops[i].len>>], [i \in DOMAIN ops |-> ReadResult(file0, ops[i])], file0, file, IF stopped THEN 1 ELSE 0, base>>)
   /\ ops' = <<>> /\ prog' = <<>> /\ got' = <<>> /\ fin' = <<>> /\ err' = <<>>
   /\ UNCHANGED <<file, base, phase, file0, stopped>>
 
@@ -136,6 +146,7 @@ Next ==
   \/ \E os \in OpSeqs : Submit(os)
   \/ \E i \in 1..MaxOps : Step(i) \/ Cancel(i)
   \/ Stop
+  \/ \E b \in 0..MaxB : Rechannel(b)
   \/ EndPhase
   \/ EmitVec
 
